@@ -362,6 +362,7 @@ class CallMixin:
         cls = fv.cls
         frame = Frame(fv.node, fv.file, cls, fr.contract, fr.depth + 1)
         frame.spec = None
+        frame.try_depth = list(fr.try_depth)
         env = self.bind_params(fv.node, args, kwargs, st, frame, cls)
         if cls and 'self' in env and isinstance(env['self'], Obj) and env['self'].cls is None:
             env['self'] = Obj(env['self'].ref, dyn_cls or cls)
